@@ -235,6 +235,14 @@ func (e *Engine) callContract(st *State, fr *Frame, callee *ssa.Function, c *Con
 	if isAction {
 		e.interfere(st)
 	}
+	// ownership: structures passed to `owns` parameters are folded first (their views become terms)
+	for _, on := range c.Owns {
+		if av, ok := vars[on]; ok {
+			if od := e.isOwnedPtr(av.T); od != nil {
+				e.closeChunk(st, od, av.L[0], av.T.Underlying().(*types.Pointer).Elem(), "call "+key)
+			}
+		}
+	}
 	pre := st.Clone()
 	se := &SpecEnv{e: e, st: st, old: pre, fr: cfr, vars: vars, env: env, pkg: c.Pkg}
 	e.bindLets(c, se)
@@ -251,6 +259,14 @@ func (e *Engine) callContract(st *State, fr *Frame, callee *ssa.Function, c *Con
 		}
 		e.obligation(st, "call-pre", key+"."+lab+"@"+pos, g, r.Src)
 		st.Assume(g)
+	}
+	// the callee consumes what it owns
+	for _, on := range c.Owns {
+		if av, ok := vars[on]; ok {
+			if od := e.isOwnedPtr(av.T); od != nil {
+				e.consumeBelow(st, od, av.L[0], av.T.Underlying().(*types.Pointer).Elem(), 0)
+			}
+		}
 	}
 	// havoc what the callee may assign
 	e.havocAssigns(st, pre, c, se, vars)
@@ -272,6 +288,34 @@ func (e *Engine) callContract(st *State, fr *Frame, callee *ssa.Function, c *Con
 		if sig.Results().Len() == 1 {
 			res = rv
 			res.T = rt
+		}
+	}
+	// ownership of results passes to the caller
+	for _, g := range c.Gives {
+		nodeOnly := false
+		name := g
+		if strings.HasPrefix(g, "node(") {
+			nodeOnly = true
+			name = strings.TrimSuffix(strings.TrimPrefix(g, "node("), ")")
+		}
+		rv, ok := post[name]
+		if !ok {
+			continue
+		}
+		od := e.isOwnedPtr(rv.T)
+		if od == nil {
+			continue
+		}
+		elem := rv.T.Underlying().(*types.Pointer).Elem()
+		if nodeOnly {
+			ls := e.lay.Leaves(elem)
+			f := make([]Term, len(ls))
+			for i, lf := range ls {
+				f[i] = e.ctx.Fresh("gn_"+sanitize(lf.Path), lf.Sort)
+			}
+			st.setChunk(&Chunk{Open: true, Ref: rv.L[0], F: f})
+		} else {
+			e.addTree(st, od, rv.L[0], e.freshTree(st, od, name))
 		}
 	}
 	se2 := &SpecEnv{e: e, st: st, old: pre, fr: cfr, vars: post, env: env, pkg: c.Pkg}
